@@ -106,8 +106,18 @@ type RunConfig struct {
 	Fault     FaultSpec     `json:"fault"`
 	Runners   RunnerSpec    `json:"runners"`
 	ReadYield int           `json:"read_yield"` // every n-th Read is a scheduling point (0: none)
+	Prelude   []PreludeSpec `json:"prelude,omitempty"`
 	Picks     []int         `json:"picks,omitempty"`
 	Note      string        `json:"note,omitempty"`
+}
+
+// PreludeSpec is an earlier call made in the same run, before the call under
+// observation: histories matter as soon as a workflow keeps anything between
+// calls (a pooled buffer, a cached table).
+type PreludeSpec struct {
+	Workflow string     `json:"workflow"`
+	NumByte  int        `json:"num_byte,omitempty"`
+	Stream   StreamSpec `json:"stream"`
 }
 
 // Required returns the number of stream bytes the workflow needs.
